@@ -318,19 +318,40 @@ func countedLoop(l *Loop) {
 	if !ok {
 		return
 	}
-	var iv *ssa.Alloc
-	for _, side := range []ssa.Value{cmp.X, cmp.Y} {
-		if u, ok := side.(*ssa.UnOp); ok && u.Op == token.MUL {
-			if al, ok := u.X.(*ssa.Alloc); ok && al.Comment != "" && iv == nil {
-				if _, isInt := scalarSort(deref(al.Type())); isInt {
-					iv = al
+	// candidates: named integer locals read (possibly under +/- a constant) on either side of the test
+	var cands []*ssa.Alloc
+	var walk func(v ssa.Value, depth int)
+	walk = func(v ssa.Value, depth int) {
+		if depth > 3 {
+			return
+		}
+		switch x := v.(type) {
+		case *ssa.UnOp:
+			if x.Op == token.MUL {
+				if al, ok := x.X.(*ssa.Alloc); ok && al.Comment != "" {
+					if ss, isInt := scalarSort(deref(al.Type())); isInt && ss == SInt {
+						cands = append(cands, al)
+					}
 				}
+			}
+		case *ssa.BinOp:
+			if x.Op == token.ADD || x.Op == token.SUB {
+				walk(x.X, depth+1)
+				walk(x.Y, depth+1)
 			}
 		}
 	}
-	if iv == nil {
-		return
+	walk(cmp.X, 0)
+	walk(cmp.Y, 0)
+	for _, iv := range cands {
+		if countedBy(l, iv) {
+			return
+		}
 	}
+}
+
+// countedBy: iv is written exactly once in the loop, by iv = iv + 1, and holds a constant on entry.
+func countedBy(l *Loop, iv *ssa.Alloc) bool {
 	// exactly one store inside the loop: i = i + 1
 	n := 0
 	for b := range l.Blocks {
@@ -342,17 +363,17 @@ func countedLoop(l *Loop) {
 			n++
 			add, ok := st.Val.(*ssa.BinOp)
 			if !ok || add.Op != token.ADD {
-				return
+				return false
 			}
 			ld, ok1 := add.X.(*ssa.UnOp)
 			one, ok2 := add.Y.(*ssa.Const)
 			if !ok1 || !ok2 || ld.X != ssa.Value(iv) || one.Value == nil || one.Value.String() != "1" {
-				return
+				return false
 			}
 		}
 	}
 	if n != 1 {
-		return
+		return false
 	}
 	// value on entry: the last store in the predecessor outside the loop must be a constant
 	for _, p := range l.Head.Preds {
@@ -372,18 +393,20 @@ func countedLoop(l *Loop) {
 			b = b.Preds[0]
 		}
 		if last == nil {
-			return
+			return false
 		}
 		c, ok := last.Val.(*ssa.Const)
 		if !ok || c.Value == nil {
-			return
+			return false
 		}
 		v, exact := constant.Int64Val(constant.ToInt(c.Value))
 		if !exact {
-			return
+			return false
 		}
 		l.KCell = iv
 		l.KOff = int(-v)
 		l.KOffBody = int(-v)
+		return true
 	}
+	return false
 }
